@@ -1,61 +1,9 @@
 ------------------------------- MODULE Verify -------------------------------
 (***************************************************************************)
-(* Single-signature verification of oasislabs/ed25519 (ed25519.go:282-337, *)
-(* 445-481): the declarative acceptance predicate of properties C01/C05    *)
-(* and the verification pipeline as the code executes it, one action per   *)
-(* code block.  Scalar arithmetic is a parameter so that the same module   *)
-(* is model-checked exhaustively on a scaled group (MCVerify: Z_17 x Z_8,  *)
-(* TLC integers) and evaluated on real 253/256/512-bit values during trace *)
-(* validation (VerifyExact: BigNat).                                       *)
-(*                                                                         *)
-(* Abstract inputs.  The curve group over GF(p) is cyclic of order 8L,     *)
-(* i.e. Z_L x Z_8: a decodable point is [k]B + [t]T8, written as a record  *)
-(*   [dec |-> TRUE, known |-> TRUE, k |-> scalar, t |-> 0..7]              *)
-(* A string that does not decode has dec = FALSE.  A decodable string      *)
-(* whose discrete logarithm the harness does not know carries              *)
-(* known = FALSE and the concrete attribute small (8P = 0).                *)
+(* The verification pipeline of verify() (ed25519.go:282-337), one action  *)
+(* per code block, over the declarative predicate of VerifyPred.           *)
 (***************************************************************************)
-EXTENDS Integers, Sequences
-
-CONSTANTS
-    SLtL(_),            \* the 256-bit little-endian value of the scalar half is < L
-    Top3Clear(_),       \* ... is < 2^253      (code: sig[63] & 224 = 0)
-    TopNibbleClear(_),  \* ... is < 2^252      (code: scalar[31] & 240 = 0)
-    ScMinFastReject(_), \* scMinimal's fast reject: any of the 3 most significant bits set
-    WordCompareLtL(_),  \* the word-wise comparison of scMinimal, for S in [2^252, 2^253)
-    KZero(_),           \* k = 0 (mod L)
-    EqnZero(_, _, _, _) \* EqnZero(S, h, kA, kR):  S - h*kA - kR = 0 (mod L)
-
-SigLen == 64
-
-(***************************************************************************)
-(* Declarative predicate (the text of C01 / C05)                           *)
-(***************************************************************************)
-SmallOrder(Pt) == IF Pt.known THEN KZero(Pt.k) ELSE Pt.small
-
-\* [8]([S]B - [h]A - R) = 0.  Multiplication by 8 kills the Z_8 component
-\* and is a bijection on Z_L, so only the k-coordinates matter.
-Equation(in) ==
-    IF in.A.known /\ in.R.known THEN EqnZero(in.S, in.h, in.A.k, in.R.k) ELSE in.eq8
-
-Accept(in) ==
-    /\ in.siglen = SigLen
-    /\ SLtL(in.S)
-    /\ in.A.dec
-    /\ in.R.dec
-    /\ in.zip \/ (~SmallOrder(in.A) /\ ~SmallOrder(in.R))
-    /\ Equation(in)
-
-AcceptDefault(in) == Accept([in EXCEPT !.zip = FALSE])
-AcceptZip(in)     == Accept([in EXCEPT !.zip = TRUE])
-
-(***************************************************************************)
-(* scMinimal as coded: fast accept, fast reject, word compare              *)
-(***************************************************************************)
-ScMinimal(S) ==
-    IF TopNibbleClear(S) THEN TRUE
-    ELSE IF ScMinFastReject(S) THEN FALSE
-    ELSE WordCompareLtL(S)
+EXTENDS VerifyPred
 
 (***************************************************************************)
 (* The pipeline: one action per code block of verify()                     *)
